@@ -59,4 +59,12 @@ CHECKS = {
         "require_classes": ["view:ok", "view:refused"],
         "assumptions": ["enumerated fields of the header tag hold defined values"],
     },
+    "C17": {
+        "bin": "c17",
+        "cfgs": {"quick": ["dD", "rD"], "thorough": ["dD", "rD", "dN", "rN"]},
+        "technique": MC,
+        "rule": "parse side: one leaf per (string kind, declared content byte string, padding variant, seam/successor); build side: one leaf per (string kind, text). every string of the stated alphabets and lengths is enumerated; distinct by construction; non-trivial = non-empty content or region-level leaf",
+        "require_classes": ["parse:text", "parse:utf8-error", "parse:missing-nul"],
+        "assumptions": ["texts with an interior NUL that do not end in NUL: only the read-back rule is checked (the property does not state how they are stored)"],
+    },
 }
